@@ -45,6 +45,7 @@
 //!  * H1 (binary decoder step counter) does not apply: the text path never touches BinDecoder.
 
 mod hky;
+mod include;
 mod model;
 mod mutate;
 mod printer;
@@ -137,7 +138,11 @@ impl Verdict {
 }
 
 fn judge(text: &str, origin: &[Vec<u8>], exp: &[Expect]) -> Verdict {
-    match hky::parse(text, origin) {
+    judge_at(text, None, origin, exp)
+}
+
+fn judge_at(text: &str, path: Option<std::path::PathBuf>, origin: &[Vec<u8>], exp: &[Expect]) -> Verdict {
+    match hky::parse_at(text, path, origin) {
         hky::Outcome::Panic(p) => Verdict::Panic(p),
         hky::Outcome::Err(e) => Verdict::Rejected(e),
         hky::Outcome::Ok(parsed) => {
@@ -548,6 +553,102 @@ impl Checker<'_> {
         }
     }
 
+    /// W6, oracle 1 across `$INCLUDE`: the hardened plan is printed, spread over files and loaded
+    /// through the main file's path. Returns the tree for the hostile / mutation workload.
+    fn include_exact(&mut self, rng: &mut vh::prng::Rng, mut c: Case, n: u64) -> Option<include::Tree> {
+        let cut = include::choose_cut(rng, &c.plan.items)?;
+        include::harden_plan(&mut c.plan, &cut);
+        let printed = print(&c.origin, &c.recs, &c.plan);
+        if printed.text.len() > MAX_TEXT || printed.denoted.is_empty() {
+            return None;
+        }
+        let exp: Vec<Expect> = printed.denoted.iter().map(|&i| expect_of(&c.recs[i])).collect();
+        // the unsplit text is the control: a layout that already fails inline is W1's business
+        if !matches!(judge(&printed.text, &c.origin, &exp), Verdict::Pass) {
+            self.rep.count("include/skipped-inline-fails");
+            return None;
+        }
+        let tree = include::build(rng, &printed, &cut, c.plan.final_newline);
+        let verdict = self.include_judge(&tree, &c.origin, &exp, n);
+        self.rep.eval();
+        self.rep.count("include/cases");
+        self.rep.count(&format!("include/files-{}", tree.files.len()));
+        let case = || json!({"kind": "include", "sig": format!("include|{}", shape_class(&tree.shape)), "origin": show_name(&c.origin), "origin_labels": c.origin.iter().map(|l| hex(l)).collect::<Vec<_>>(),
+                             "tree": include::tree_json(&tree), "inline_text": printed.text, "records": exp.iter().map(expect_json).collect::<Vec<_>>()});
+        match &verdict {
+            None => {
+                self.rep.count("include/scratch-io-error");
+            }
+            Some(Verdict::Pass) => {
+                self.rep.count("include/pass");
+                self.rep.count(&format!("include/pass/{}", shape_class(&tree.shape)));
+                self.rep.add("include/records", exp.len() as u64);
+                self.rep.nontrivial(fnv64(format!("{:?}", tree.files).as_bytes()));
+                if self.rep.get("include/pass") % 512 == 1 {
+                    self.rep.sample(case);
+                }
+            }
+            Some(Verdict::Panic(p)) => {
+                self.rep.count("include/panic");
+                self.rep.violation("panic", &panic_sig(p), case(), json!("parse() returns Ok with the denoted records"), verdict.as_ref().unwrap().observed());
+            }
+            Some(v) => {
+                self.rep.count("include/fail");
+                self.rep.violation("exact", &format!("include|{}", shape_class(&tree.shape)), case(), json!("Ok with exactly the records listed in case.records (the unsplit text case.inline_text loads to exactly them)"), v.observed());
+            }
+        }
+        Some(tree)
+    }
+
+    fn include_judge(&mut self, tree: &include::Tree, origin: &[Vec<u8>], exp: &[Expect], n: u64) -> Option<Verdict> {
+        let scratch = include::Scratch::new(n);
+        let (path, text) = scratch.write(tree).ok()?;
+        Some(judge_at(&text, Some(path), origin, exp))
+    }
+
+    /// W7, oracle 2 on a file tree: Ok or Err, no panic, promptly.
+    fn include_robust(&mut self, tree: &include::Tree, origin: &[Vec<u8>], workload: &str, n: u64) {
+        let case = || json!({"kind": "include-robust", "workload": workload, "origin": show_name(origin), "origin_labels": origin.iter().map(|l| hex(l)).collect::<Vec<_>>(), "tree": include::tree_json(tree)});
+        self.rep.breadcrumb(case);
+        let scratch = include::Scratch::new(n);
+        let Ok((path, text)) = scratch.write(tree) else {
+            self.rep.count("include/scratch-io-error");
+            return;
+        };
+        let t0 = Instant::now();
+        let out = hky::parse_at(&text, Some(path.clone()), origin);
+        let dt = t0.elapsed();
+        self.rep.eval();
+        self.rep.max("max_include_parse_ms", dt.as_secs_f64() * 1e3);
+        self.rep.count(&format!("include-robust/{workload}/seen"));
+        if dt >= HANG {
+            let mut again = 0;
+            for _ in 0..3 {
+                let t = Instant::now();
+                let _ = hky::parse_at(&text, Some(path.clone()), origin);
+                if t.elapsed() >= HANG {
+                    again += 1;
+                }
+            }
+            if again == 3 {
+                self.rep.violation("hang", workload, case(), json!("parse() returns promptly"), json!({"seconds": dt.as_secs_f64()}));
+            } else {
+                self.rep.inconclusive("an include case exceeded 20 s once but did not reproduce as a hang");
+            }
+            return;
+        }
+        match out {
+            hky::Outcome::Ok(_) => self.rep.count(&format!("include-robust/{workload}/ok")),
+            hky::Outcome::Err(_) => {
+                self.rep.count(&format!("include-robust/{workload}/err"));
+            }
+            hky::Outcome::Panic(p) => {
+                self.rep.count(&format!("include-robust/{workload}/panic"));
+                self.rep.violation("panic", &panic_sig(&p), case(), json!("Ok or Err"), json!({"panic": p.message, "at": p.location}));
+            }
+        }
+    }
+
     /// Oracle 1 on one generated case; returns the printed text for the mutation workload.
     fn exact(&mut self, c: Case, risk: Risk) -> Option<String> {
         let (printed, verdict) = run_case(&c);
@@ -607,6 +708,11 @@ impl Checker<'_> {
     }
 }
 
+/// signature class of an include layout: path kinds and nesting, without the optional decorations
+fn shape_class(shape: &str) -> String {
+    shape.replace("+comment", "")
+}
+
 fn labels_from_json(v: &Value) -> Labels {
     v.as_array().map(|a| a.iter().map(|l| unhex(l.as_str().unwrap_or(""))).collect()).unwrap_or_default()
 }
@@ -649,6 +755,23 @@ fn main() {
                 Verdict::Panic(p) => rep.violation("panic", &panic_sig(p), c.clone(), json!("Ok with the denoted records"), v.observed()),
                 _ => rep.violation("exact", c["sig"].as_str().unwrap_or("?"), c.clone(), json!("Ok with exactly the records listed in case.records"), v.observed()),
             }
+        } else if c["kind"] == "include" {
+            let exp: Vec<Expect> = c["records"].as_array().map(|a| a.iter().map(expect_from_json).collect()).unwrap_or_default();
+            let tree = include::tree_from_json(&c["tree"]);
+            rep.eval();
+            let mut ck = Checker { rep: &mut rep, times_us: Vec::new() };
+            match ck.include_judge(&tree, &origin, &exp, 0) {
+                None => ck.rep.inconclusive("could not write the include tree to the scratch directory"),
+                Some(Verdict::Pass) => {}
+                Some(v) => match &v {
+                    Verdict::Panic(p) => ck.rep.violation("panic", &panic_sig(p), c.clone(), json!("Ok with the denoted records"), v.observed()),
+                    _ => ck.rep.violation("exact", c["sig"].as_str().unwrap_or("?"), c.clone(), json!("Ok with exactly the records listed in case.records"), v.observed()),
+                },
+            }
+        } else if c["kind"] == "include-robust" {
+            let tree = include::tree_from_json(&c["tree"]);
+            let mut ck = Checker { rep: &mut rep, times_us: Vec::new() };
+            ck.include_robust(&tree, &origin, c["workload"].as_str().unwrap_or("replay"), 0);
         } else {
             let mut ck = Checker { rep: &mut rep, times_us: Vec::new() };
             ck.robust(&text, &origin, c["workload"].as_str().unwrap_or("replay"));
@@ -662,6 +785,13 @@ fn main() {
     rep.must("exact/pass", 30_000 * scale);
     rep.must("exact/nontrivial", 30_000 * scale);
     rep.must("malformed_rejected", 100_000 * scale);
+    rep.must("include/pass", 3_000 * scale);
+    for sh in ["rel", "abs", "rel/nested-rel", "rel/nested-abs", "abs/nested-rel"] {
+        rep.must(&format!("include/pass/{sh}"), 100 * scale);
+    }
+    for w in ["cycle-self", "cycle-mutual", "missing-file", "directory", "malformed-entry", "domain-name", "deep-chain", "same-file-twice"] {
+        rep.must(&format!("include-robust/{w}/seen"), 20 * scale);
+    }
     for (t, _) in TYPES {
         rep.must(&format!("type_ok/{t}"), 5_000 * scale);
     }
@@ -679,6 +809,7 @@ fn main() {
     let n_zones = ctx.budget(120_000, 3_000_000);
     let mut rng = ctx.rng("zones");
     let mut mrng = ctx.rng("mutants");
+    let mut irng = ctx.rng("include");
     let mut type_cursor = ctx.shard as usize * 7;
     for i in 0..n_zones {
         let zone = gen_zone(&mut rng, &mut type_cursor);
@@ -693,6 +824,28 @@ fn main() {
         };
         let plan = gen_plan(&mut rng, &zone, risk);
         let origin = zone.origin.clone();
+        // ---- W6 the same zone spread over $INCLUDEd files (every 32nd zone, plain-risk layouts), W7 hostile trees
+        if i % 32 == 3 && risk == Risk::None {
+            let c = Case { origin: origin.clone(), recs: zone.recs.clone(), plan: plan.clone() };
+            if let Some(tree) = ck.include_exact(&mut irng, c, i) {
+                if irng.chance(1, 3) {
+                    // one file of the tree damaged by 1-3 mutation steps
+                    let mut t = tree.clone();
+                    let k = irng.usize_below(t.files.len());
+                    let mut m = mutate::mutate(&mut irng, &t.files[k].1);
+                    for _ in 0..irng.below(3) {
+                        m = mutate::mutate(&mut irng, &m);
+                    }
+                    t.files[k].1 = m;
+                    ck.include_robust(&t, &origin, "mutant-file", i);
+                }
+                if irng.chance(1, 3) {
+                    let body = tree.files.last().map(|f| f.1.clone()).unwrap_or_default();
+                    let (t, label) = include::hostile(&mut irng, &body);
+                    ck.include_robust(&t, &origin, label, i);
+                }
+            }
+        }
         let Some(text) = ck.exact(Case { origin: origin.clone(), recs: zone.recs, plan }, risk) else { continue };
         // mutants: 1–3 mutation steps each
         let n_mut = if i % 2 == 0 { 7 } else { 6 };
